@@ -740,6 +740,245 @@ static string do_sac(const vector<string> &a) {
          ";buf=" + buf_s(rx) + ";spec=" + vh::str((handled && buf_s(rx) == exp) ? 1 : 0);
 }
 
+// ---------------------------------------------------------------- long-lived sender histories
+// One sender node and one receiver node per case, both kept for the whole script.  Four universe
+// slots; the receiver has a handler (own buffer, own callback) on each.  Script tokens:
+//   s<slot><k>  send frame pool[k] to the universe of <slot>
+//   n<slot><k>  rename: E1.31 SetSourceName(universe of slot, "nm<k>"); other protocols: the node-wide name setter
+//   x<slot>     another public setter that must not disturb the stream (StartStream, SetUniverse, SetLongName ...)
+static uint32_t fnv(uint32_t h, const vector<uint8_t> &v) {
+  for (size_t i = 0; i < v.size(); i++) { h ^= v[i]; h = (h * 16777619u) & 0xffffffffu; }
+  return h;
+}
+static const unsigned H_SN[4] = {0, 1, 6, 7};
+static const unsigned H_B8[4] = {0, 1, 254, 255};
+static const unsigned H_PP[4] = {0, 1, 126, 127};
+static const unsigned H_E1[4] = {1, 2, 63999, 65534};
+static const unsigned H_AN[4] = {0, 1, 14, 15};
+
+static string do_hist(const vector<string> &a) {
+  // hist <proto> <frame/frame/...> <token,token,...>
+  const string &proto = a[1];
+  vector<string> pool_s = vh::split(a[2], '/');
+  vector<vector<uint8_t> > pool;
+  for (size_t i = 0; i < pool_s.size(); i++) pool.push_back(vh::unhex(pool_s[i]));
+  vector<string> script = vh::split(a[3], ',');
+  DmxBuffer rx[4];
+  ola::Callback0<void> *cbs[4] = {ola::NewCallback(&on_port0), ola::NewCallback(&on_port1),
+                                  ola::NewCallback(&on_port2), ola::NewCallback(&on_port3)};
+  ola::io::SelectServer ss;
+  using ola::plugin::shownet::ShowNetNode;
+  using ola::plugin::sandnet::SandNetNode;
+  using ola::plugin::espnet::EspNetNode;
+  using ola::plugin::pathport::PathportNode;
+  using ola::plugin::artnet::ArtNetNode;
+  using ola::plugin::artnet::ArtNetNodeOptions;
+  using ola::acn::E131Node;
+  std::auto_ptr<ShowNetNode> sn_t, sn_r;
+  std::auto_ptr<SandNetNode> sa_t, sa_r;
+  std::auto_ptr<EspNetNode> es_t, es_r;
+  std::auto_ptr<PathportNode> pp_t, pp_r;
+  std::auto_ptr<ArtNetNode> an_t, an_r;
+  std::auto_ptr<E131Node> e1_t, e1_r;
+  uint8_t prio_out = 0;
+  IPV4Address mc;
+  if (proto == "sn") {
+    sn_t.reset(new ShowNetNode("")); sn_r.reset(new ShowNetNode(""));
+    ShowNetNode *ns[2] = {sn_t.get(), sn_r.get()};
+    for (int k = 0; k < 2; k++) {
+      ns[k]->m_interface = iface(); ns[k]->m_socket = new ola::network::UDPSocket();
+      ns[k]->m_socket->Init(); ns[k]->m_running = true;
+    }
+    for (int k = 0; k < 4; k++) sn_r->SetHandler(H_SN[k], &rx[k], cbs[k]);
+  } else if (proto == "sa") {
+    sa_t.reset(new SandNetNode("")); sa_r.reset(new SandNetNode(""));
+    SandNetNode *ns[2] = {sa_t.get(), sa_r.get()};
+    IPV4Address::FromString("237.1.2.1", &mc);
+    for (int k = 0; k < 2; k++) {
+      ns[k]->m_interface = iface(); ns[k]->m_data_socket.Init(); ns[k]->m_control_socket.Init();
+      ns[k]->m_data_addr = IPV4SocketAddress(mc, 37900); ns[k]->m_control_addr = IPV4SocketAddress(mc, 37895);
+      ns[k]->m_running = true;
+    }
+    for (int k = 0; k < 4; k++) sa_r->SetHandler(1, H_B8[k], &rx[k], cbs[k]);
+  } else if (proto == "es") {
+    es_t.reset(new EspNetNode("")); es_r.reset(new EspNetNode(""));
+    EspNetNode *ns[2] = {es_t.get(), es_r.get()};
+    for (int k = 0; k < 2; k++) { ns[k]->m_interface = iface(); ns[k]->m_socket.Init(); ns[k]->m_running = true; }
+    for (int k = 0; k < 4; k++) es_r->SetHandler(H_B8[k], &rx[k], cbs[k]);
+  } else if (proto == "pp") {
+    pp_t.reset(new PathportNode("", 77, 0)); pp_r.reset(new PathportNode("", 78, 0));
+    PathportNode *ns[2] = {pp_t.get(), pp_r.get()};
+    IPV4Address::FromString("239.255.237.1", &mc);
+    for (int k = 0; k < 2; k++) {
+      ns[k]->m_interface = iface(); ns[k]->m_socket.Init(); ns[k]->m_data_addr = mc; ns[k]->m_running = true;
+    }
+    for (int k = 0; k < 4; k++) pp_r->SetHandler(H_PP[k], &rx[k], cbs[k]);
+  } else if (proto == "an") {
+    ArtNetNodeOptions topts, ropts;
+    topts.always_broadcast = true;
+    an_t.reset(new ArtNetNode(iface(), &ss, topts, new CapSocket()));
+    an_r.reset(new ArtNetNode(iface(), &ss, ropts, new CapSocket()));
+    an_t->SetNetAddress(5); an_t->SetSubnetAddress(3); an_t->SetInputPortUniverse(0, H_AN[0]);
+    an_r->SetNetAddress(5); an_r->SetSubnetAddress(3);
+    for (int k = 0; k < 4; k++) { an_r->SetDMXHandler(k, &rx[k], cbs[k]); an_r->SetOutputPortUniverse(k, H_AN[k]); }
+    if (!an_t->Start() || !an_r->Start()) return "t=nostart";
+  } else if (proto == "e1" || proto == "e2") {
+    E131Node::Options opts;
+    opts.use_rev2 = proto == "e2";
+    opts.source_name = "hist";
+    uint8_t cid_bytes[16];
+    for (int k = 0; k < 16; k++) cid_bytes[k] = k + 1;
+    e1_t.reset(new E131Node(&ss, "", opts, ola::acn::CID::FromData(cid_bytes)));
+    for (int k = 0; k < 16; k++) cid_bytes[k] = 0x80 + k;
+    e1_r.reset(new E131Node(&ss, "", opts, ola::acn::CID::FromData(cid_bytes)));
+    e1_t->m_interface = iface(); e1_r->m_interface = iface();
+    e1_t->m_socket.Init(); e1_r->m_socket.Init();
+    for (int k = 0; k < 4; k++) e1_r->m_dmp_inflator.SetHandler(H_E1[k], &rx[k], &prio_out, cbs[k]);
+  } else {
+    return "t=bad-proto";
+  }
+  string trace;
+  uint32_t h = 2166136261u;
+  unsigned sends = 0, delivered = 0;
+  for (size_t i = 0; i < script.size(); i++) {
+    const string &tk = script[i];
+    if (tk.size() < 2) continue;
+    unsigned slot = tk[1] - '0';
+    unsigned k = tk.size() > 2 ? vh::num(tk.substr(2)) : 0;
+    if (slot > 3) continue;
+    if (tk[0] == 'n') {
+      string nm = "nm" + vh::str(k);
+      if (sn_t.get()) sn_t->SetName(nm);
+      if (sa_t.get()) sa_t->SetName(nm);
+      if (es_t.get()) es_t->SetName(nm);
+      if (an_t.get()) an_t->SetShortName(nm);
+      if (e1_t.get()) e1_t->SetSourceName(H_E1[slot], nm);
+      continue;
+    }
+    if (tk[0] == 'x') {
+      if (es_t.get()) { es_t->SetUniverse(H_B8[slot]); es_t->SetType(ola::plugin::espnet::ESPNET_NODE_TYPE_IO); }
+      if (an_t.get()) an_t->SetLongName("long name " + vh::str(slot));
+      if (e1_t.get()) e1_t->StartStream(H_E1[slot]);
+      if (sa_t.get()) sa_t->SetPortParameters(1, SandNetNode::SANDNET_PORT_MODE_IN, 2, H_B8[slot]);
+      continue;
+    }
+    if (tk[0] != 's' || k >= pool.size()) continue;
+    const vector<uint8_t> &f = pool[k];
+    DmxBuffer tx;
+    tx_fill(&tx, f, NULL);
+    g_sent.clear();
+    bool sent = false;
+    if (sn_t.get()) sent = sn_t->SendDMX(H_SN[slot], tx);
+    if (sa_t.get()) {
+      sa_t->SetPortParameters(0, SandNetNode::SANDNET_PORT_MODE_IN, 1, H_B8[slot]);
+      sent = sa_t->SendDMX(0, tx);
+    }
+    if (es_t.get()) sent = es_t->SendDMX(H_B8[slot], tx);
+    if (pp_t.get()) sent = pp_t->SendDMX(H_PP[slot], tx);
+    if (an_t.get()) { an_t->SetInputPortUniverse(0, H_AN[slot]); g_sent.clear(); sent = an_t->SendDMX(0, tx); }
+    if (e1_t.get()) sent = e1_t->SendDMX(H_E1[slot], tx, 100, false);
+    sends++;
+    if (!sent || g_sent.size() != 1) { trace += "-"; continue; }
+    vector<uint8_t> pkt = g_sent[0];
+    if (pp_t.get()) for (size_t z = 32 + f.size(); z < pkt.size(); z++) pkt[z] = 0;   // uninitialised padding
+    h = fnv(h, pkt);
+    int before[4];
+    for (int z = 0; z < 4; z++) before[z] = g_port_calls[z];
+    g_rx = g_sent[0]; g_rx_valid = true; set_source();
+    if (sn_r.get()) sn_r->SocketReady();
+    if (sa_r.get()) sa_r->SocketReady(&sa_r->m_data_socket);
+    if (es_r.get()) es_r->SocketReady();
+    if (pp_r.get()) pp_r->SocketReady(&pp_r->m_socket);
+    if (an_r.get()) an_r->m_impl.SocketReady();
+    if (e1_r.get()) e1_r->m_incoming_udp_transport.Receive();
+    bool ok = true;
+    for (unsigned z = 0; z < 4; z++) {
+      int d = g_port_calls[z] - before[z];
+      if (z == slot ? d != 1 : d != 0) ok = false;
+    }
+    // the slots of the frame read back with their values (partial-universe protocols keep the rest)
+    string got = buf_s(rx[slot]);
+    vector<uint8_t> e = f;
+    if (an_t.get() && (e.size() & 1)) e.push_back(0);
+    string want = vh::hex(e);
+    bool partial = sn_t.get() || pp_t.get();
+    if (partial ? got.compare(0, want.size(), want) != 0 : got != want) ok = false;
+    h = fnv(h, vector<uint8_t>(got.begin(), got.end()));
+    if (ok) delivered++;
+    trace += ok ? "1" : "0";
+  }
+  char hb[16];
+  snprintf(hb, sizeof(hb), "%08x", h);
+  return "t=" + trace + ";h=" + hb + ";delivered=" + vh::str(delivered) + ";spec=" + vh::str(delivered == sends ? 1 : 0);
+}
+
+// ---------------------------------------------------------------- Art-Net: several senders, merge timeout
+static string do_anm(const vector<string> &a) {
+  // anm <ltp> <frame/frame/...> <tokens>   a<k> b<k> c<k>: sender A/B/C sends pool[k];  w<sec>: time passes
+  using ola::plugin::artnet::ArtNetNode;
+  using ola::plugin::artnet::ArtNetNodeOptions;
+  vector<string> pool_s = vh::split(a[2], '/');
+  vector<vector<uint8_t> > pool;
+  for (size_t i = 0; i < pool_s.size(); i++) pool.push_back(vh::unhex(pool_s[i]));
+  vector<string> script = vh::split(a[3], ',');
+  ola::MockClock clock;
+  ola::io::SelectServer ss(NULL, &clock);
+  ss.RunOnce();
+  ArtNetNodeOptions topts, ropts;
+  topts.always_broadcast = true;
+  std::auto_ptr<ArtNetNode> tx[3];
+  for (int k = 0; k < 3; k++) {
+    tx[k].reset(new ArtNetNode(iface(), &ss, topts, new CapSocket()));
+    tx[k]->SetNetAddress(1); tx[k]->SetSubnetAddress(2); tx[k]->SetInputPortUniverse(0, 3);
+    if (!tx[k]->Start()) return "t=nostart";
+  }
+  ola::network::Interface rif = iface();
+  IPV4Address::FromString("10.0.0.9", &rif.ip_address);
+  ArtNetNode rxn(rif, &ss, ropts, new CapSocket());
+  rxn.SetNetAddress(1); rxn.SetSubnetAddress(2); rxn.SetOutputPortUniverse(0, 3);
+  DmxBuffer rx;
+  rxn.SetDMXHandler(0, &rx, ola::NewCallback(&on_data));
+  if (vh::num(a[1])) rxn.SetMergeMode(0, ola::plugin::artnet::ARTNET_MERGE_LTP);
+  if (!rxn.Start()) return "t=nostart";
+  const char *ips[3] = {"10.0.0.2", "10.0.0.3", "10.0.0.4"};
+  long last[3] = {-1, -1, -1};
+  long now = 0;
+  string trace;
+  uint32_t h = 2166136261u;
+  unsigned sole = 0, sole_ok = 0;
+  for (size_t i = 0; i < script.size(); i++) {
+    const string &tk = script[i];
+    if (tk.size() < 2) continue;
+    unsigned k = vh::num(tk.substr(1));
+    if (tk[0] == 'w') { clock.AdvanceTime(k, 0); ss.RunOnce(); now += k; continue; }
+    int who = tk[0] - 'a';
+    if (who < 0 || who > 2 || k >= pool.size()) continue;
+    const vector<uint8_t> &f = pool[k];
+    DmxBuffer txb;
+    tx_fill(&txb, f, NULL);
+    g_sent.clear();
+    if (!tx[who]->SendDMX(0, txb) || g_sent.size() != 1) { trace += "-"; continue; }
+    int before = g_calls;
+    g_rx = g_sent[0]; g_rx_valid = true;
+    IPV4Address src; IPV4Address::FromString(ips[who], &src); g_rx_source = src.AsInt();
+    rxn.m_impl.SocketReady();
+    // is this sender the only one heard within the merge timeout?
+    bool alone = true;
+    for (int z = 0; z < 3; z++) if (z != who && last[z] >= 0 && !(last[z] + 10 < now)) alone = false;
+    last[who] = now;
+    vector<uint8_t> e = f;
+    if (e.size() & 1) e.push_back(0);
+    bool exact = g_calls == before + 1 && buf_s(rx) == vh::hex(e);
+    if (alone) { sole++; if (exact) sole_ok++; }
+    string got = (g_calls == before + 1 ? "1:" : "0:") + buf_s(rx);
+    h = fnv(h, vector<uint8_t>(got.begin(), got.end()));
+    trace += exact ? (alone ? "1" : "e") : (alone ? "0" : "m");
+  }
+  char hb[16];
+  snprintf(hb, sizeof(hb), "%08x", h);
+  return "t=" + trace + ";h=" + hb + ";sole=" + vh::str(sole_ok) + ";spec=" + vh::str(sole_ok == sole ? 1 : 0);
+}
+
 static string handle(const string &p) {
   vector<string> a = vh::split(p);
   const string &op = a[0];
@@ -753,6 +992,8 @@ static string handle(const string &p) {
   if (op == "anu" && a.size() == 9) return do_anu(a);
   if (op == "e1p" && a.size() == 5) return do_e1p(a);
   if (op == "sac" && a.size() == 8) return do_sac(a);
+  if (op == "hist" && a.size() == 4) return do_hist(a);
+  if (op == "anm" && a.size() == 4) return do_anm(a);
   if (op == "dec" && a.size() == 4) return do_dec(a);
   if (op == "sn" && a.size() == 7) return do_sn(a);
   if (op == "sa" && a.size() == 8) return do_sa(a);
